@@ -223,6 +223,23 @@ SMALL = {
         },
         "marks": {"em": {}, "ins": {"attrs": {"user": {"default": "a"}}}, "note": {"attrs": {"id": {}}, "excludes": ""}},
     },
+    # GRID: containers whose content is an exact sequence (a row of two cells, term / description pairs): joining two of
+    # them by a deletion across their boundary makes the merged container invalid although every child is fine
+    "grid": {
+        "nodes": {
+            "doc": {"content": "block+"},
+            "p": {"content": "inline*", "group": "block"},
+            "grid": {"content": "row+", "group": "block"},
+            "row": {"content": "cell cell"},
+            "cell": {"content": "p+"},
+            "dl": {"content": "(dt dd)+", "group": "block"},
+            "dt": {"content": "inline*"},
+            "dd": {"content": "p{1,2}"},
+            "text": {"group": "inline"},
+            "br": {"inline": True, "group": "inline"},
+        },
+        "marks": {"em": {}},
+    },
     "s4": {
         "nodes": {
             "doc": {"content": "(para | plain)+"},
@@ -259,6 +276,12 @@ def spec_of(name: str) -> dict:
                         table={"content": "table_row+", "group": "block", "isolating": True},
                         table_row={"content": "table_cell+"},
                         table_cell={"content": "block+", "isolating": True})
+    if name == "reord":        # the same node types declared in another order (text last, inline leaves before it): the order
+        # decides the order of a match state's edges and of default fillers, nothing a user would notice
+        nodes = base["nodes"]
+        order = [n for n in nodes if n != "text" and not nodes[n].get("inline")] + [n for n in nodes if nodes[n].get("inline")] + ["text"]
+        assert sorted(order) == sorted(nodes)
+        return {**base, "nodes": {n: nodes[n] for n in order}}
     raise KeyError(name)
 
 
